@@ -7,7 +7,7 @@ Two builds of the same harness explore the same histories:
            the "same pointer" path of ini_val_set (glibc takes it at will, ASan never)
 Every process runs the whole search (state discovery is cheap); the per-state observer cases are
 sharded by the global case counter."""
-import os, re, subprocess, sys
+import os, re, shutil, subprocess, sys
 from concurrent.futures import ThreadPoolExecutor
 from vlib import core
 
@@ -73,6 +73,30 @@ def make_replayer(bins, tier, rep):
     return replayer
 
 
+def merge(rep, sub):
+    """Fold a per-search Report into the main one with the semantics of Report.ingest."""
+    for target, d in sub.stats.items():
+        dd = rep.stats.setdefault(target, {})
+        for k, v in d.items():
+            if isinstance(k, tuple):
+                dd[k] = max(dd.get(k, 0), v)
+            else:
+                dd[k] = dd.get(k, 0) + v
+    for k, v in sub.clauses.items():
+        rep.clauses[k] = rep.clauses.get(k, 0) + v
+    for k, cases in sub.viol.items():
+        l = rep.viol.setdefault(k, [])
+        for c in cases:
+            if len(l) < 8:
+                l.append(c)
+    for smp in sub.samples:
+        if sum(1 for x in rep.samples if x.get('target') == smp.get('target')) < 2 and len(rep.samples) < 40:
+            rep.samples.append(smp)
+    rep.notes += sub.notes
+    rep.harness_errors += sub.harness_errors
+    rep.exhaustive = rep.exhaustive and sub.exhaustive
+
+
 def parse_bfs_notes(notes):
     out = []
     for n in notes:
@@ -90,7 +114,7 @@ def run(tier):
         '(type, text, name/value offsets, per-line allocation size); three alphabets: "closed" (ini_val_set only, 2 sections x 2 names x '
         '3-4 values incl. empty and a 40-byte one, from the empty store and from a parsed skeleton with blank lines, searched until no '
         'new state appears), "deep" (4 snippets + 12 sets + set_uint, depth 5/6), "mixed" (8 snippets, 3 sections x 3 names x 5 values, '
-        'set_int/set_uint, depth 3/4); snippets that would create a duplicate (section,name) or section header are not enabled; in every '
+        'set_int/set_uint, depth 3), thorough also "mixed4" (7 snippets, 3 x 3 x 4 values, depth 4); snippets that would create a duplicate (section,name) or section header are not enabled; in every '
         'state 7 observer cases compare get/vali_get/get_int/enumerators/calc_size/gen(all capacities)/parse(gen) with a list-of-lists '
         'reference; a case is non-trivial when the store holds at least one entry (gen: at least one line) and the whole clause chain was evaluated')
     rep.assumptions = [
@@ -106,13 +130,27 @@ def run(tier):
     # total): wall = D + O/n, cpu = n*D + O.  The shard count per search is chosen from the measured D and O so that
     # discovery-heavy searches (closed: 16 revisits per state) do not burn 16 x D.
     if tier == 'quick':
-        plan = [('asan', 'closed,deep,mixed', 8), ('inplace', 'closed,deep', 8)]
+        plan = [('asan', 'closed,deep', 4), ('asan', 'mixed', 4), ('inplace', 'closed,deep', 4)]
     else:
-        plan = [('asan', 'closed', 4), ('asan', 'deep', 8), ('asan', 'mixed', 16),
-                ('inplace', 'closed', 4), ('inplace', 'deep', 8), ('inplace', 'mixed', 8)]
-    for cfg, phases, n in plan:
-        core.run_sharded(rep, bins[cfg], tier, nshards=n, extra_args=['--cfg', cfg, '--phases', phases],
-                         config='%s:%s' % (cfg, phases))
+        plan = [('asan', 'mixed4', 8), ('asan', 'closed', 4), ('asan', 'deep', 4), ('asan', 'mixed', 2),
+                ('inplace', 'deep', 4), ('inplace', 'closed', 4), ('inplace', 'mixed', 2)]
+    # The searches are independent processes: run them side by side, each into its own Report (Report.ingest is not
+    # safe for concurrent run_sharded calls), under its own binary name (the progress files are named after it), and
+    # merge in plan order so that the result does not depend on which finishes first.
+    def one(item):
+        cfg, phases, n = item
+        label = '%s:%s' % (cfg, phases)
+        exe = bins[cfg] + '.' + phases.replace(',', '_')
+        if os.path.exists(exe):
+            os.unlink(exe)
+        shutil.copy2(bins[cfg], exe)
+        sub = core.Report(PROP, tier, 'model_checking', '')
+        core.run_sharded(sub, exe, tier, nshards=n, extra_args=['--cfg', cfg, '--phases', phases], config=label)
+        return sub
+    with ThreadPoolExecutor(max_workers=len(plan)) as ex:
+        subs = list(ex.map(one, plan))
+    for sub in subs:
+        merge(rep, sub)
     # every shard runs the identical search and prints identical notes only from shard 0
     per = parse_bfs_notes(rep.notes)
     states = sum(int(d['states']) for d in per if d['cfg'] == 'asan')
